@@ -52,6 +52,14 @@ OWNERS = {
     "shorten": {"C03", "C10"}, "zerocap": {"C03", "C10"}, "name": {"C10"},
     "orient": {"C16"}, "choice": {"C09", "C05"}, "action": {"C03"}, "adapter": {"C03", "C05", "C09", "C16"},
     "record": {"C05", "C09", "C15", "C16", "C17", "C20"},
+    "filter": {"C05", "C11", "C15"},         # every modifier conforms locally but the destination differs: filters / sinks
+}
+# a crash (uncaught exception) is reported by the checks of the properties anchored in the file that raised it;
+# a crash raised elsewhere (or of unknown origin) is reported by every check
+CRASH_OWNERS = {
+    "modifiers.py": {"C03", "C05", "C09", "C10", "C16"}, "adapters.py": {"C03", "C09", "C17", "C20"},
+    "steps.py": {"C04", "C05", "C11", "C15", "C17"}, "report.py": {"C04", "C20"}, "statistics.py": {"C04", "C20"},
+    "predicates.py": {"C11"}, "pipeline.py": {"C10", "C04"}, "info.pyx": {"C17"},
 }
 OBSERVATION_ONLY = {"Occ.AtMostOnce", "Stages.DocumentedOrder", "Struct1", "Struct2", "PairSync", "Report.InputCount", "Report.Conservation", "Report.WrittenMatchesFiles",
                     "Report.InputBasePairs", "Report.TextFateEqualsJson", "Report.MinimalEqualsJson",
@@ -74,7 +82,9 @@ def prop_clause(pid, clause):
     m = CLAUSES[pid]
     if clause in m:
         return m[clause]
-    if pid in ("C04", "C11") and clause.startswith("Report.Category."):
+    # which category a discarded read is counted in is C11's business (criteria and order of the filters); C04 only
+    # says that it is counted in exactly one (Report.Conservation, files against report)
+    if pid == "C11" and clause.startswith("Report.Category."):
         return "ReportCategory:" + clause.split(".", 2)[2]
     return None
 
@@ -127,6 +137,11 @@ def run_family_check(ctx, pid, n_quick, n_thorough, want=("report",), config_hoo
             ctx.violation("OutputFilesAreCompleteRecords", f"{pid}:garbled-output-file", dict(argv=ev["argv"], failed=ev["failed"], config=ev["C"]),
                           case=dict(C=ev["C"], replay=ev.get("_replay")))
         if ev["failed"]["exit"] == -1:
+            owners = CRASH_OWNERS.get((ev["failed"].get("site") or "").split(":")[0])
+            if owners is not None and pid not in owners:
+                d = ctx.extra.setdefault("crashes_attributed_to_other_properties", {})
+                d[ev["failed"].get("site")] = d.get(ev["failed"].get("site"), 0) + 1
+                continue
             ctx.violation("RunCompletes", f"{pid}:crash:" + ev["failed"]["exc"][:60], dict(argv=ev["argv"], failed=ev["failed"], config=ev["C"]),
                           case=dict(C=ev["C"], replay=ev.get("_replay")))
     ctx.extra["cli_refusals"] = [dict(argv=ev["argv"], err=ev["failed"]["errors"][:1]) for ev in failed if ev["failed"]["exit"] != -1][:5]
